@@ -155,8 +155,11 @@ class _Ctx:
 
 
     def without_stmts(self):
+        # a fresh statement list; the properties in force are inherited
+        # (an inner `!` annotation only overrides the properties it names)
         ctx = _Ctx()
         ctx.env = dict(self.env)
+        ctx.props = self.props
         return ctx
 
 
@@ -411,7 +414,7 @@ class _FPCore2FPy:
         # create loop body
         loop_env = dict(env)
         stmts: list[Stmt] = []
-        update_ctx = _Ctx(env=env, stmts=stmts)
+        update_ctx = _Ctx(env=env, props=ctx.props, stmts=stmts)
         for var, _, update in e.while_bindings:
             # compile value
             update_e = self._visit(update, update_ctx)
@@ -644,13 +647,15 @@ class _FPCore2FPy:
         return self._visit(e.body, body_ctx)
 
     def _visit_ctx(self, e: fpc.Ctx, ctx: _Ctx) -> Expr:
-        # compile body
-        val_ctx = ctx.without_stmts()
-        val = self._visit(e.body, val_ctx)
-
-        # compile properties to a context
+        # compile properties to a context:
+        # the enclosing properties updated with the ones named here
         props = self._visit_props(e.props, ctx)
         fpc_ctx = FPCoreContext(**props)
+
+        # compile body (under the updated properties)
+        val_ctx = ctx.without_stmts()
+        val_ctx.props = props
+        val = self._visit(e.body, val_ctx)
 
         # try to convert to a native FPy context
         try:
@@ -789,15 +794,16 @@ class _FPCore2FPy:
 
         # compile 
         props = self._visit_props(f.props, ctx)
-        ctx.props = props
+        ctx.props = dict(props)   # the body inherits all of them (`precision` is removed from the metadata below)
 
-        # possibly generate context
-        if 'precision' in props:
+        # possibly generate context: any rounding property determines one
+        # (`:round toZero` alone is binary64 rounded toward zero)
+        if any(k in props for k in ('precision', 'round', 'overflow')):
             try:
                 ctx_val: None | Context | FPCoreContext = FPCoreContext(**props).to_context()
             except NoSuchContextError:
                 ctx_val = FPCoreContext(**props)
-            del props['precision']
+            props.pop('precision', None)
         else:
             ctx_val = None
 
